@@ -81,7 +81,7 @@ TNext ==
   \/ IsEvent("KRdyEnd") /\ AKRdyEnd(E.k, E.n)
   \/ IsEvent("KRdyDone") /\ AKRdyDone(E.k, l, E.now, E.sig)
   \/ IsEvent("Send") /\ ASend(E.k, E.c, E.id, E.att, E.crc, E.len, E.ts)
-  \/ IsEvent("KCmd") /\ AKCmd(E.k, E.cmd, E.arg, E.err)
+  \/ IsEvent("KCmd") /\ AKCmd(E.k, E.cmd, E.arg, E.err, E.wf)
   \/ IsEvent("HRecv") /\ (IF E.k = -1 THEN UNCHANGED vars ELSE AHRecv(E.k, E.id, E.att, E.crc, E.len, E.ts))
   \/ IsEvent("HPubAck") /\ AHPubAck(ToSet(E.keys))
   \/ IsEvent("HStatsT") /\ AHStatsT(E.t, E.count, E.bytes, E.depth)
